@@ -39,6 +39,7 @@ type Engine struct {
 	privCache map[ssa.Value]bool
 	allocCache map[*ssa.Function]bool
 	emitters  map[*ssa.Function]string
+	unsortedRet map[*ssa.Function]bool
 }
 
 func (e *Engine) subIndex(key string) int {
